@@ -163,10 +163,17 @@ func (o *Out) count(key string) {
 // one the same seed generates) and the process exits.
 func (o *Out) watchdog(limit int64, seed int64) {
 	atomic.StoreInt64(&o.beat, time.Now().Unix())
+	start := time.Now().Unix()
 	go func() {
 		for {
 			time.Sleep(5 * time.Second)
-			if idle := time.Now().Unix() - atomic.LoadInt64(&o.beat); idle > limit {
+			idle := time.Now().Unix() - atomic.LoadInt64(&o.beat)
+			// the whole run has a budget too (a normal quick run takes seconds, a thorough one minutes): requests that
+			// each run into a client time-out keep producing records and would otherwise go on for hours
+			if total := time.Now().Unix() - start; total > 8*limit {
+				idle = total
+			}
+			if idle > limit {
 				m := Meta{Stage: "watchdog", Kind: "oracle", Ok: false, Case: o.lastCase, Key: "watchdog",
 					Clause: fmt.Sprintf("no record for %d s: the code under test did not return from the case after the last completed record", idle),
 					Input:  map[string]interface{}{"seed": seed, "last_completed_stage": o.lastStage, "last_completed_case": o.lastCase, "last_completed_key": truncate(o.lastKey, 4000)}}
